@@ -430,7 +430,11 @@ func (ex *exec) visitInstr(fr *frame, instr ssa.Instruction) continuation {
 
 	case *ssa.MapUpdate:
 		m, _ := fr.get(instr.Map).(*omap)
-		ex.mapInsert(m, fr.get(instr.Key), fr.get(instr.Value))
+		v := fr.get(instr.Value)
+		if mt, ok := instr.Map.Type().Underlying().(*types.Map); ok && needsCopy(mt.Elem()) {
+			v = copyVal(mt.Elem(), v)
+		}
+		ex.mapInsert(m, fr.get(instr.Key), v)
 
 	case *ssa.TypeAssert:
 		fr.env[fr.slots[instr]] = ex.typeAssert(instr, fr.get(instr.X))
